@@ -1,0 +1,139 @@
+//go:build verif
+
+// Contracts for package statecache, checked by /verif/gocv (comment-only file).
+package statecache
+
+// BlockCacher has unexported methods: its implementers are *BlockCache and *QueryBlockCache.
+//@ closed BlockCacher
+
+// Value is implemented by clients. Clone returns an independent copy: Copy(r, v) is an abstract
+// relation (not reflexive), so handing out or storing the original where a copy is required does
+// not satisfy a contract.
+//@ ufun Copy(r Iface, v Iface) bool
+//@ func (Value).Clone returns (r)
+//@   assigns nothing
+//@   ensures r != nil && Copy(r, self)
+
+// Shape of the committed store: sc.cache maps a key to a per-key cache (block hash -> valueNode);
+// sc.hashCache maps a block hash to its parent's hash. A live entry carries data.
+//@ pred EntryWF(e Iface) = e is valueNode && (e.(valueNode).deleted || e.(valueNode).data != nil)
+//@ pred PerKeyWF(v Iface) = v is *lru.Cache && v.(*lru.Cache) != nil && (forall b Iface :: LruHas[v.(*lru.Cache)][b] ==> EntryWF(LruVal[v.(*lru.Cache)][b]))
+//@ pred SCShape(sc *StateCache) = sc != nil && sc.cache != nil && sc.hashCache != nil && sc.cache != sc.hashCache
+//@    | && (forall k Iface :: LruHas[sc.cache][k] ==> PerKeyWF(LruVal[sc.cache][k]) && LruVal[sc.cache][k].(*lru.Cache) != sc.cache && LruVal[sc.cache][k].(*lru.Cache) != sc.hashCache)
+//@    | && (forall h Iface :: LruHas[sc.hashCache][h] ==> LruVal[sc.hashCache][h] is string)
+
+// Entries of a transaction cache always carry data; entries of a block cache carry data unless
+// they are bare tombstones.
+//@ pred BlockWF(bc *BlockCache) = bc != nil && bc.cache != nil && SCShape(bc.main) && (forall k string :: k in bc.cache ==> bc.cache[k].deleted || bc.cache[k].data != nil)
+//@ pred TxnWF(tc *TransactionCache) = tc.cache != nil && tc.main != nil && (forall k string :: k in tc.cache ==> tc.cache[k].data != nil)
+//@    | && (tc.main is *BlockCache ==> BlockWF(tc.main.(*BlockCache)))
+//@    | && (tc.main is *QueryBlockCache ==> tc.main.(*QueryBlockCache) != nil && SCShape(tc.main.(*QueryBlockCache).sc))
+
+// ================= C07: writes are private until commit; values are never shared =================
+
+// A transaction's writes and removals touch only its own map.
+//@ func (*TransactionCache).Set
+//@   props C07
+//@   mode wrap
+//@   requires TxnWF(tc) && e != nil
+//@   assigns mapof(tc.cache)
+//@   ensures key in tc.cache && !tc.cache[key].deleted && Copy(tc.cache[key].data, e)                                      #stores-a-copy
+//@   ensures forall k string :: k != key ==> (k in tc.cache) == old(k in tc.cache) && tc.cache[k] == old(tc.cache[k])       #other-keys-untouched
+//@   ensures TxnWF(tc)
+
+//@ func (*TransactionCache).Remove
+//@   props C07
+//@   mode wrap
+//@   requires TxnWF(tc)
+//@   assigns mapof(tc.cache)
+//@   ensures key in tc.cache && tc.cache[key].deleted                                                                        #tombstone
+//@   ensures forall k string :: k != key ==> (k in tc.cache) == old(k in tc.cache) && tc.cache[k] == old(tc.cache[k])       #other-keys-untouched
+//@   ensures TxnWF(tc)
+
+// Own uncommitted writes first; what is handed out is a copy; a lookup changes neither the
+// transaction's nor any block's pending map (only the committed store may memoise).
+//@ func (*TransactionCache).Get returns (v, ok)
+//@   props C07 C06
+//@   mode wrap
+//@   requires TxnWF(tc)
+//@   assigns ghost(LruHas), ghost(LruVal)
+//@   ensures old(key in tc.cache) && !old(tc.cache[key].deleted) ==> ok && Copy(v, old(tc.cache[key].data))                #own-write-first-as-copy
+//@   ensures old(key in tc.cache) && old(tc.cache[key].deleted) ==> !ok                                                     #own-removal-misses
+
+// Commit hands every pending entry to the block cache (which stores a copy) and empties the map.
+//@ func (*TransactionCache).Commit
+//@   props C07
+//@   mode wrap
+//@   requires TxnWF(tc) && tc.main is *BlockCache
+//@   ensures len(tc.cache) == 0                                                                                              #emptied
+
+// A block's writes touch only its own pending map.
+//@ func (*BlockCache).Set
+//@   props C07
+//@   mode wrap
+//@   requires pcc.cache != nil && e != nil
+//@   assigns mapof(pcc.cache)
+//@   ensures key in pcc.cache && !pcc.cache[key].deleted && Copy(pcc.cache[key].data, e)                                    #stores-a-copy
+//@   ensures forall k string :: k != key ==> (k in pcc.cache) == old(k in pcc.cache) && pcc.cache[k] == old(pcc.cache[k])   #other-keys-untouched
+
+//@ func (*BlockCache).setValue
+//@   props C07
+//@   mode wrap
+//@   requires pcc.cache != nil && v.data != nil
+//@   assigns mapof(pcc.cache)
+//@   ensures key in pcc.cache && pcc.cache[key].deleted == v.deleted && Copy(pcc.cache[key].data, v.data)                   #stores-a-copy
+//@   ensures forall k string :: k != key ==> (k in pcc.cache) == old(k in pcc.cache) && pcc.cache[k] == old(pcc.cache[k])   #other-keys-untouched
+
+//@ func (*BlockCache).remove
+//@   props C07
+//@   mode wrap
+//@   requires pcc.cache != nil
+//@   assigns mapof(pcc.cache)
+//@   ensures key in pcc.cache && pcc.cache[key].deleted                                                                      #tombstone
+//@   ensures forall k string :: k != key ==> (k in pcc.cache) == old(k in pcc.cache) && pcc.cache[k] == old(pcc.cache[k])   #other-keys-untouched
+
+//@ func (*BlockCache).Get returns (v, ok)
+//@   props C07 C06
+//@   mode wrap
+//@   requires BlockWF(pcc)
+//@   assigns ghost(LruHas), ghost(LruVal)
+//@   ensures old(key in pcc.cache) && !old(pcc.cache[key].deleted) ==> ok && Copy(v, old(pcc.cache[key].data))              #own-write-first-as-copy
+//@   ensures old(key in pcc.cache) && old(pcc.cache[key].deleted) ==> !ok                                                   #own-removal-misses
+
+//@ func (String).Clone returns (r)
+//@   props C07
+//@   assigns nothing
+//@   ensures r != nil
+//@ func (*EmptyValue).Clone returns (r)
+//@   props C07
+//@   assigns nothing
+//@   ensures r != nil
+
+// ================= C06: a lookup never returns a wrong value for a block =================
+//
+// Truth(H, V, PH, PV, b): the entry a lookup at block b must find, relative to the committed
+// entries of one key (H/V: block hash -> entry) and the parent links (PH/PV): the block's own entry
+// if there is one, else the truth at its parent, else nothing.
+//@ spec Truth(H (Array Iface Bool), V (Array Iface Iface), PH (Array Iface Bool), PV (Array Iface Iface), b Iface) Iface = H[b] ? V[b] : (PH[b] ? Truth(H, V, PH, PV, PV[b]) : nilIface())
+
+//@ func (*StateCache).Get returns (v, ok)
+//@   props C06 C07
+//@   mode wrap
+//@   requires SCShape(sc)
+//@   assigns ghost(LruHas), ghost(LruVal)
+//@   ensures SCShape(sc)                                                                                                     #shape-kept
+//@   ensures ok ==> old(LruHas[sc.cache][iface(key)])                                                                        #hit-needs-committed-key
+//@   ensures ok ==> old(Truth(LruHas[LruVal[sc.cache][iface(key)].(*lru.Cache)], LruVal[LruVal[sc.cache][iface(key)].(*lru.Cache)], LruHas[sc.hashCache], LruVal[sc.hashCache], iface(blockHash))) is valueNode
+//@      | && !old(Truth(LruHas[LruVal[sc.cache][iface(key)].(*lru.Cache)], LruVal[LruVal[sc.cache][iface(key)].(*lru.Cache)], LruHas[sc.hashCache], LruVal[sc.hashCache], iface(blockHash))).(valueNode).deleted
+//@      | && Copy(v, old(Truth(LruHas[LruVal[sc.cache][iface(key)].(*lru.Cache)], LruVal[LruVal[sc.cache][iface(key)].(*lru.Cache)], LruHas[sc.hashCache], LruVal[sc.hashCache], iface(blockHash))).(valueNode).data)      #hit-is-copy-of-truth
+//@   ensures old(LruHas[sc.cache][iface(key)]) ==> LruHas[sc.cache][iface(key)] && (forall b Iface :: old(LruHas[LruVal[sc.cache][iface(key)].(*lru.Cache)][b]) ==>
+//@      | LruHas[LruVal[sc.cache][iface(key)].(*lru.Cache)][b] && LruVal[LruVal[sc.cache][iface(key)].(*lru.Cache)][b] == old(LruVal[LruVal[sc.cache][iface(key)].(*lru.Cache)][b]))      #memoisation-keeps-committed-entries
+//@   loop 1 invariant count >= 0 && (count == 0 || count < sc.maxHisDepth) && !LruHas[bvs][iface(blockHash)] && SCShape(sc) && LruHas[sc.cache][iface(key)] && LruVal[sc.cache][iface(key)] == blockValues       #walking
+//@   loop 1 invariant Truth(LruHas[bvs], LruVal[bvs], LruHas[sc.hashCache], LruVal[sc.hashCache], iface(oldBlockHash)) == Truth(LruHas[bvs], LruVal[bvs], LruHas[sc.hashCache], LruVal[sc.hashCache], iface(blockHash))      #same-truth-along-the-chain
+//@   loop 1 invariant LruHas[bvs] == old(LruHas[bvs]) && LruVal[bvs] == old(LruVal[bvs]) && LruHas[sc.hashCache] == old(LruHas[sc.hashCache]) && LruVal[sc.hashCache] == old(LruVal[sc.hashCache])      #nothing-written-yet
+
+//@ func (*QueryBlockCache).Get returns (v, ok)
+//@   props C06
+//@   mode wrap
+//@   requires qbc.sc != nil && SCShape(qbc.sc)
+//@   assigns ghost(LruHas), ghost(LruVal)
